@@ -20,7 +20,11 @@ Item(k) ==
       [] k = "data"    -> <<".db 1, 2, 3", ".ascii 'text'">>
       [] k = "scope"   -> <<".scope named {", "inner_label:", "}">>
       [] k = "tabs"    -> <<"    ", "">>
-PreKinds == {"blank", "comment", "eolc", "stmt", "label", "mlc", "mlc1", "block", "macro", "data", "scope", "tabs"}
+      \* characters some libraries treat as line breaks but that do not end a source line (only \n does);
+      \* "<vt>" "<nel>" "<ls>" stand for U+000B, U+0085, U+2028 (the harness substitutes them)
+      [] k = "ffc"     -> <<"; comment with a form feed \f inside">>
+      [] k = "vtstr"   -> <<".ascii 'a<vt>b' ; and <nel> <ls> in a comment">>
+PreKinds == {"blank", "comment", "eolc", "stmt", "label", "mlc", "mlc1", "block", "macro", "data", "scope", "tabs", "ffc", "vtstr"}
 
 \* fault statements: text, whether the error is lexical, offset of the offending character in the text
 Fault(k) ==
@@ -30,8 +34,9 @@ Fault(k) ==
       [] k = "bad_suffix"    -> [text |-> "lda.q 0x10", lexical |-> TRUE, off |-> 4]
       [] k = "bad_index"     -> [text |-> "lda 0x10,z", lexical |-> TRUE, off |-> 9]
       [] k = "unterminated"  -> [text |-> ".ascii 'abc", lexical |-> TRUE, off |-> 7]
+      [] k = "unterminated_bs" -> [text |-> ".ascii 'abc\\", lexical |-> TRUE, off |-> 7]
       [] k = "bad_width"     -> [text |-> "lda.l #0x123456", lexical |-> FALSE, off |-> 0]
-FaultKinds == {"undef_operand", "undef_nosfx", "undef_data", "bad_suffix", "bad_index", "unterminated", "bad_width"}
+FaultKinds == {"undef_operand", "undef_nosfx", "undef_data", "bad_suffix", "bad_index", "unterminated", "unterminated_bs", "bad_width"}
 
 Spaces(n) == [j \in 1..n |-> " "]
 RECURSIVE Cat(_)
